@@ -14,6 +14,7 @@ import (
 	"fmt"
 	"math/big"
 	"math/rand"
+	"runtime"
 
 	"github.com/markkurossi/mpc/circuit"
 	"github.com/markkurossi/mpc/ot"
@@ -182,6 +183,132 @@ func c04Whole(idx int, rng *rand.Rand, tr *ndWriter, kind string) *Result {
 	res.Nontrivial = n1 > 0 && n0 > 0
 	res.Sample = map[string]int{"bytes": len(sr.g2e), "windows": windows, "wires": circ.NumWires}
 	g.Release()
+	return res
+}
+
+// c04Deviate: the evaluator's OT range message is altered in transit (offset -> 0, or count changed), as a
+// deviating evaluator would send it.  The garbler must refuse, or hand exactly the evaluator's wires to OT.
+func c04Deviate(idx int, rng *rand.Rand, kind string) *Result {
+	res := &Result{Case: idx, Class: "deviate:" + kind, Nontrivial: true}
+	nin := 4 + rng.Intn(5)
+	n0 := 1 + rng.Intn(nin-2)
+	n1 := nin - n0
+	if n1 > n0 {
+		// make an OT of n1 wires starting at 0 possible inside the garbler's own range as well
+		n0, n1 = n1, n0
+	}
+	tc := randomCircuit(rng, nin, 6+rng.Intn(10), n0, 2)
+	circ, _ := mkTwoParty(tc)
+	x := bitsToBig(tc.Inp[:n0])
+	y := bitsToBig(tc.Inp[n0:])
+	base := runWhole(circ, x, y, sessOpts{ot: kind, record: true, randSeed: uint64(seed())<<32 + uint64(idx)*7 + 11, corruptAt: -1})
+	if base.gErr != nil || base.eErr != nil || base.stalled {
+		res.viol("session-failed:"+kind, "session failed: %v %v", base.gErr, base.eErr)
+		return res
+	}
+	pat := []byte{0, 0, 0, byte(n0), 0, 0, 0, byte(n1)}
+	pos := -1
+	for i := 0; i+8 <= len(base.e2g); i++ {
+		if string(base.e2g[i:i+8]) == string(pat) {
+			pos = i
+			break
+		}
+	}
+	if pos < 0 {
+		res.drift("OT range message not found in the evaluator's stream")
+		return res
+	}
+	type dev struct {
+		off  int
+		mask byte
+		what string
+	}
+	devs := []dev{{pos + 3, byte(n0), "offset->0"}, {pos + 3, byte(n0) ^ byte(n0-1), "offset-1"}, {pos + 7, 1, "count^1"}}
+	for _, d := range devs {
+		sr := runWhole(circ, x, y, sessOpts{ot: kind, record: true, randSeed: uint64(seed())<<32 + uint64(idx)*7 + 12, corruptAt: d.off, mask: []byte{d.mask}, corruptGE: false, timeout: 20e9})
+		if len(sr.otG.sent) == 0 {
+			continue // refused before OT
+		}
+		g, _, err := regarble(circ, sr.gRand)
+		if err != nil {
+			res.drift("cannot recompute the garbling: %v", err)
+			return res
+		}
+		bad := len(sr.otG.sent[0]) != n1
+		for i, w := range sr.otG.sent[0] {
+			if i < n1 && (!w.L0.Equal(g.Wires[n0+i].L0) || !w.L1.Equal(g.Wires[n0+i].L1)) {
+				bad = true
+			}
+		}
+		if bad {
+			res.viol("ot-range:deviating-evaluator", "evaluator range message altered (%s, n0=%d n1=%d): the garbler served OT for %d wires that are not the evaluator's input wires (its own input labels become available in both values)", d.what, n0, n1, len(sr.otG.sent[0]))
+		}
+		g.Release()
+	}
+	return res
+}
+
+// c04Overlap: several sessions with different garbler inputs overlap on ONE shared *circuit.Circuit; the union of the
+// transcripts is scanned with every session's R.
+func c04Overlap(idx int, rng *rand.Rand) *Result {
+	res := &Result{Case: idx, Class: "overlap", Nontrivial: true}
+	// sync.Pool caches per P: with one P a buffer returned by one session is the next one handed out
+	if (idx/2)%2 == 1 || !thorough() {
+		old := runtime.GOMAXPROCS(1)
+		defer runtime.GOMAXPROCS(old)
+	}
+	nin := 16
+	n0 := 8
+	// tables larger than the connection's three 64 KiB write buffers: the garbler stalls while sending to a slow peer
+	tc := randomCircuit(rng, nin, 9000, n0, 3)
+	for i := range tc.Gates {
+		if i%4 != 3 {
+			tc.Gates[i].Op = "AND"
+			if tc.Gates[i].B == tc.Gates[i].A {
+				tc.Gates[i].B = (tc.Gates[i].A + 1) % nin
+			}
+		}
+	}
+	circ, _ := mkTwoParty(tc)
+	const ns = 4
+	srs := make([]*sessResult, ns)
+	done := make(chan int, ns)
+	for j := 0; j < ns; j++ {
+		j := j
+		x := big.NewInt(int64((j * 0x5b) & 0xff))
+		if j%2 == 1 {
+			x = big.NewInt(int64(^(j * 0x5b) & 0xff))
+		}
+		y := big.NewInt(int64(rng.Intn(256)))
+		o := sessOpts{ot: []string{"co", "cot"}[j%2], record: true, randSeed: uint64(seed())<<32 + uint64(idx)*100 + uint64(j) + 31, corruptAt: -1,
+			capacity: 4096}
+		go func() {
+			srs[j] = runWhole(circ, x, y, o)
+			done <- j
+		}()
+	}
+	for j := 0; j < ns; j++ {
+		<-done
+	}
+	var union []byte
+	for _, sr := range srs {
+		union = append(union, sr.g2e...)
+		union = append(union, make([]byte, 16)...)
+	}
+	for j, sr := range srs {
+		g, _, err := regarble(circ, sr.gRand)
+		if err != nil {
+			continue
+		}
+		pairs, rAt, _ := scanTranscript(union, g.R)
+		if len(pairs) > 0 {
+			res.viol("pair:overlapping-sessions", "sessions overlapping on one shared circuit value: the transcripts together contain two values differing by session %d's R (offset %d)", j, pairs[0])
+		}
+		if len(rAt) > 0 {
+			res.viol("R-sent:overlapping-sessions", "R of session %d is transmitted", j)
+		}
+		g.Release()
+	}
 	return res
 }
 
@@ -388,6 +515,12 @@ func c04Main(args []string) error {
 	}
 	for i := 0; i < (n+1)/2; i++ {
 		out.put(c04Stream(idx, rng, tr, kinds[i%3]))
+		idx++
+	}
+	for i := 0; i < (n+3)/4; i++ {
+		out.put(c04Deviate(idx, rng, kinds[i%3]))
+		idx++
+		out.put(c04Overlap(idx, rng))
 		idx++
 	}
 	ns := 1
